@@ -30,6 +30,7 @@ class World:
                        z3.ULE(self.head, 62831), z3.ULE(self.soc, 250)]
         for nm in (self.name1, self.name2):
             # device function 130 / class 10 ("Diagnostic"): the indirect lookup key is concrete; the rest of the NAME is free
+            # (C01 decides the indirect lookup for every class / function; freeing them here multiplies the paths per claim by 9)
             self.assume += [z3.Extract(47, 40, nm) == 130, z3.Extract(55, 49, nm) == 10]
             # numeric NAME fields lie inside their database ranges (so: not the 'not available' pattern either), industry group = 4 (Marine): keeps the path count per claim small
             self.assume += [z3.ULE(z3.Extract(20, 0, nm), 2097148),   # unique number inside its database range (a claim outside it is rejected by the decoder)
